@@ -2,6 +2,13 @@
 //! delete-set computation. Deliberately free of I/O so it is exhaustively
 //! unit-testable; `incremental.rs` supplies the metadata and executes the plan.
 
+#[cfg(paiml_copia_verif)]
+#[allow(unused_imports)]
+use copia_simworld::shim::{fs2, std, tokio};
+#[cfg(paiml_copia_verif)]
+#[allow(unused_imports)]
+use copia_simworld::{eprintln, println};
+
 use std::collections::BTreeMap;
 use std::path::{Component, Path, PathBuf};
 
